@@ -18,6 +18,9 @@ func init() {
 			bu := inFiles(p, btcd+"/btcutil/v2", "block.go", "tx.go")
 			ruleAllocBounds(p, r, func(fn *ssa.Function) bool { return wire(fn) || bu(fn) }, "wire+btcutil")
 			r.need("alloc-bound", 30)
+			// a count converted from uint64 to a signed integer must be known to fit or be tested
+			// against a lower bound before it sizes an allocation or a slice (negative len panics)
+			ruleSignedConv(p, r, func(fn *ssa.Function) bool { return wire(fn) || bu(fn) })
 			ruleCursorAdvance(p, r, func(fn *ssa.Function) bool { return wire(fn) || bu(fn) })
 			ruleMessageRegistry(p, r)
 			ruleVersionGates(p, r, wirePkg)
